@@ -13,9 +13,11 @@ import hirq, absx, sem, cloneid
 EXPLANATION = ("For every LdapConn method with a same-named Ldap method, on every path: either (A) exactly one call of Ldap::<same name> on the "
                "connection's own handle with the method's own parameters in order (through at most the transparent IntoAdapterVec::into), "
                "driven by block_on on the connection's own runtime, its value returned unmodified (or wrapped "
-               "into EntryStream { stream, conn: self } for the two streaming searches), nothing else done; or (B) the method's paths (conditions, "
-               "ordered calls / stores / awaits, returned value) equal the paths of the Ldap method's body modulo self.ldap -> self, where a call of a "
-               "synchronous sibling LdapConn::x stands for the awaited Ldap::x. Signatures agree modulo async / SearchStream -> EntryStream. "
+               "into EntryStream { stream, conn: self } for the two streaming searches), nothing else done; or (B) the method has the same effects as the Ldap method's body modulo self.ldap -> self: both sides' paths are enumerated, and in every case "
+               "the two have in common (every pair of paths whose conditions do not contradict each other - every prior state of the handle's fields, every argument) the ordered calls / stores / awaits, "
+               "the returned value and what is left in the handle's fields are the same, where a call of a "
+               "synchronous sibling LdapConn::x stands for the awaited Ldap::x; how a field is written is not read (`= Some(v)`, Option::replace / insert, mem::replace are one store; get_or_insert(v) "
+               "stores only where the field was None, so with a modifier already pending the first value wins on one side and the last on the other: reported). (A) also requires that the handle's fields are left as they were (a modifier taken out before delegating). Signatures agree modulo async / SearchStream -> EntryStream. "
                "Constructors: new / with_settings / from_url (both families) amount to from_url_with_settings(settings or LdapConnSettings::new(), "
                "url or Url::parse(url)?) and return its result unmodified; LdapConn::from_url_with_settings builds a current-thread runtime with all "
                "drivers enabled, runs LdapConnAsync::from_url_with_settings(settings, url) on it - with the caller's own settings value: moved, or moved out of a `&mut` to it "
@@ -178,10 +180,12 @@ def builds_a_value_only(f, cal, _busy=()):
         cache[cal] = ok
     return ok
 
-def effects(o, allowed=(), f=None):
+def effects(o, allowed=(), f=None, heap0=None):
     """What a path does besides the allowed calls: stores, spawned tasks, calls into the crate (other than of a function that only
-    puts a value together, when the facts are given)."""
+    puts a value together, when the facts are given) - and whatever else it leaves changed in a field (a modifier taken out of the
+    handle by Option::take / mem::take before delegating is not a `store`, but the handle is not what it was: left_behind)."""
     ex = [absx.fmt(e[1])[:40] for e in o.st.ev if e[0] in ('store', 'store-unknown')]
+    ex += ['%s := %s' % (absx.fmt(k)[:40], absx.fmt(v)[:30]) for k, v in sorted(left_behind(o, heap0=heap0), key=str) if absx.fmt(k)[:40] not in ex]
     ex += ['spawn'] * len([e for e in o.st.ev if e[0] == 'spawn' and 'spawn' not in allowed])
     ex += [c[1] for c in sem.calls(o, lambda c: (c.startswith('ldap3::') or c.startswith('<ldap3::')) and c not in allowed and not hirq.is_transparent(c)
                                            and not FROM_IMPL.match(c))      # the conversion `?` applies, spelled out
@@ -281,6 +285,7 @@ def check_delegation(ctx, f, B, m, ap, recv_place, rt_place, rule='D'):
     family = ap.rsplit('::', 1)[0] + '::'
     n = 0
     for state, o in outs:
+        heap0 = {('field', recv_place, dom[0]): state} if state is not None else None       # (the state the evaluation was entered with)
         if o.kind not in ('val', 'ret'):
             ctx.fail(rule + '.delegates', m, loc(B.root), 'a path of %s does not return (%s)' % (m, o.kind)); continue
         n += 1
@@ -291,7 +296,7 @@ def check_delegation(ctx, f, B, m, ap, recv_place, rt_place, rule='D'):
             # own receiver -, returns the same value on every path and does nothing: then the test is the sibling's own first test
             # made early.  Otherwise the wrapper answers where the asynchronous method would have gone on
             same, diff = pretest_agrees(f, ap, recv_place, dom[0], state, o)
-            extra = effects(o)
+            extra = effects(o, heap0=heap0)
             ctx.add(rule + '.pre-test-agrees-with-sibling', '%s|%s' % (m, state[1].rsplit('::', 1)[-1]), loc(B.root), same and not extra,
                     '%s answers %s by itself, without calling its sibling %s, on a path with state %s%s; %s' % (
                         m, absx.fmt(o.val)[:40], short, state[1].rsplit('::', 1)[-1],
@@ -324,7 +329,7 @@ def check_delegation(ctx, f, B, m, ap, recv_place, rt_place, rule='D'):
         v = o.val
         ok = unmodified(v, o, res) or (not is_async and v == SELF and recv_place[0] == 'field') or wraps_stream(v, o, res)
         ctx.add(rule + '.returns-result', m, loc(B.root), ok, 'the value of the delegate call is not returned unmodified (or wrapped as EntryStream { stream, conn: self }): %s' % absx.fmt(v)[:100])
-        extra = effects(o, allowed=(ap,))
+        extra = effects(o, allowed=(ap,), heap0=heap0)
         ctx.add(rule + '.no-extra-effects', m, loc(B.root), not extra, '%s does something besides delegating: %s' % (m, extra[:3]))
     ctx.add(rule + '.delegates', m + '|paths', loc(B.root), n >= 1, 'no path of %s returns' % m)
 
@@ -381,6 +386,8 @@ def norm_paths(f, B, side):
             if e[0] == 'block_on':
                 foreign = foreign or e[1] != ('field', SELF, 'rt')
                 continue
+            if e[0] == 'call' and e[1].startswith('core::mem::') and any(e2[0] == 'store' and e2[-1] is e[-1] for e2 in o.st.ev):
+                continue        # mem::replace(&mut place, v): all it does is the store the interpreter recorded for it (the next event)
             if e[0] == 'call':
                 t = tr(('call', e[1], tuple(e[2]), None))
                 if t[0] == 'await':
@@ -402,7 +409,7 @@ def norm_paths(f, B, side):
                 if unmodified(v, o, b) or (side == 'sync' and wraps_stream(v, o, b)):
                     v = b; break
         pc = frozenset((tr(a), t) for a, t in o.st.pc)
-        recs.append((kind, pc, tuple(evs), tr(v)))
+        recs.append((kind, pc, tuple(evs), tr(v), left_behind(o, tr)))
     # two paths that differ only in the outcome of one test and do the same thing are one path without that test
     changed = True
     while changed:
@@ -410,10 +417,10 @@ def norm_paths(f, B, side):
         for i in range(len(recs)):
             for j in range(i + 1, len(recs)):
                 a, b = recs[i], recs[j]
-                if a[0] == b[0] and a[2] == b[2] and a[3] == b[3]:
+                if a[0] == b[0] and a[2] == b[2] and a[3] == b[3] and a[4] == b[4]:
                     d = a[1] ^ b[1]
                     if len(d) == 2 and len({x[0] for x in d}) == 1:
-                        recs[i] = (a[0], a[1] & b[1], a[2], a[3])
+                        recs[i] = (a[0], a[1] & b[1], a[2], a[3], a[4])
                         del recs[j]
                         changed = True
                         break
@@ -421,10 +428,40 @@ def norm_paths(f, B, side):
                 break
     return recs
 
+def left_behind(o, tr=lambda t: t, heap0=None):
+    """What a path leaves in the places it wrote: {place: value} for every field place whose value at the end of the path is not
+    what it was at its start (heap0: the places the evaluation was entered with).  However the write is spelled - an assignment,
+    Option::replace / insert / get_or_insert / take, mem::replace / mem::take - the interpreter's heap holds the outcome."""
+    heap0 = heap0 or {}
+    return frozenset((tr(k), tr(v)) for k, v in o.st.heap.items() if k[0] == 'field' and v != k and heap0.get(k) != v)
+
 def fmt_rec(r):
-    kind, pc, evs, v = r
+    kind, pc, evs, v = r[:4]
     return '%s %s after [%s]%s' % (kind, absx.fmt(v)[:80], '; '.join('%s %s' % (e[0], ' '.join(absx.fmt(x)[:50] if isinstance(x, tuple) else str(x).rsplit('::', 1)[-1] for x in e[1:])) for e in evs)[:160],
                                   (' if ' + ', '.join(('' if t else 'not ') + absx.fmt(a)[:40] for a, t in sorted(pc, key=str))) if pc else '')
+
+def explain_difference(m, r, x):
+    """One case in which the synchronous path r and the asynchronous path x differ, in words: the prior state (what the two paths
+    tested), then what differs - what is left in a field of the handle first, as that is what the next operation will see."""
+    if r is None or x is None:
+        return ('sync only: ' + fmt_rec(r)) if x is None else ('async only: ' + fmt_rec(x))
+    def case_text(pc):
+        out = []
+        for at, t in sorted(pc, key=str):
+            if at[0] == 'is' and at[2] == 'Some':
+                out.append('%s %s' % (absx.fmt(at[1])[:50], 'already set (Some)' if t else 'not set (None)'))
+            else:
+                out.append(('' if t else 'not ') + absx.fmt(at)[:50])
+        return ('with ' + ' and '.join(out) + ' ') if out else ''
+    case = case_text(r[1] | x[1])
+    ls, la = dict(r[4]), dict(x[4])
+    for P in sorted(set(ls) | set(la), key=str):
+        if ls.get(P) != la.get(P):
+            say = lambda v, who: ('%s keeps the earlier value of %s' % (who, absx.fmt(P)) if any(at == ('is', P, 'Some') and t for at, t in r[1] | x[1]) else '%s leaves %s as it was' % (who, absx.fmt(P))) if v is None \
+                else '%s leaves %s = %s' % (who, absx.fmt(P), absx.fmt(v)[:60])
+            return '%s%s, %s: after the call the two handles are not in the same state (the next operation runs with different %s)' % (
+                case, say(ls.get(P), 'the sync method'), say(la.get(P), 'the async one'), P[2] if P[0] == 'field' else 'settings')
+    return '%ssync: %s | async: %s' % (case, fmt_rec(r), fmt_rec(x))
 
 def check_same_behaviour(ctx, f, B, m, sp, ap, report=True):
     """(B) the synchronous method does, path by path, what the asynchronous body does on the connection's handle."""
@@ -439,22 +476,33 @@ def check_same_behaviour(ctx, f, B, m, sp, ap, report=True):
     def rel(sv, av):
         # `&mut Self` is returned by both: the connection here, its handle there
         return sv == av or (sv == SELF and av == LDAP)
-    rest = list(a)
-    miss = []
+    # Both sides enumerate *all* their paths, so each side's path conditions cover every prior state of the handle and every
+    # argument.  A synchronous path and an asynchronous one whose conditions do not contradict each other (no atom taken one way
+    # here and the other way there) describe a common case, and in that case they must do the same: the same ordered events, the same
+    # value returned, the same values left in the handle's fields.  (A side that does not test what the other tests is compatible
+    # with both outcomes and has to agree with both: `replace(v)` - no test - agrees with `= Some(v)`; `get_or_insert(v)` - one
+    # path per case of the field - agrees with it only where the field was None.)
+    def compatible(p, q):
+        return not any((at, not t) in q for at, t in p)
+    def same(r, x):
+        return r[0] == x[0] and r[2] == x[2] and rel(r[3], x[3]) and r[4] == x[4]
+    diffs = []
     for r in s:
-        hit = next((x for x in rest if x[0] == r[0] and x[1] == r[1] and x[2] == r[2] and rel(r[3], x[3])), None)
-        if hit is None:
-            miss.append(r)
-        else:
-            rest.remove(hit)
-    ok = bool(s) and not miss and not rest
+        cands = [x for x in a if compatible(r[1], x[1])]
+        if not cands:
+            diffs.append((r, None))
+        diffs.extend((r, x) for x in cands if not same(r, x))
+    for x in a:
+        if not any(compatible(r[1], x[1]) for r in s):
+            diffs.append((None, x))
+    ok = bool(s) and bool(a) and not diffs
     detail = ''
     if not ok:
         detail = 'LdapConn::%s is neither a delegation to Ldap::%s nor does it do the same as its body (modulo self.ldap): ' % (m, m)
-        if miss:
-            detail += 'sync only: ' + fmt_rec(miss[0]) + ' | '
-        if rest:
-            detail += 'async only: ' + fmt_rec(rest[0])
+        if diffs:
+            detail += explain_difference(m, *diffs[0])
+        else:
+            detail += 'one of the two has no path'
     if ok or report:
         ctx.add('D.same-body', m, loc(B.root), ok, detail[:600])
     return ok
